@@ -268,6 +268,7 @@ Matches(a, srow, trow) ==
            /\ ~IsNullTok(AttrType(Tgt(a), Assocs[a].tkeys[k]), tv)
            /\ sv = tv
 Upto(n) == [i \in 1..n |-> i]
+RowOfInst(c, i) == [c |-> c, v |-> [n \in Rng(AttrNames(c)) |-> Read(c, i, n)]]
 
 LoadBuild(rows, g2) ==
     LET R(c) == RowsOf(c, rows) IN
@@ -294,7 +295,6 @@ LoadBuild(rows, g2) ==
 (* multiplicity check, which loading does not have: when a match would give a    *)
 (* single-valued end a second partner the call is outside the domain of C03.     *)
 RowAsRef(c, i, row) == [c |-> c, v |-> [n \in Rng(AttrNames(c)) |-> IF n \in DOMAIN row.v THEN row.v[n] ELSE "unset"]]
-RowOfInst(c, i) == [c |-> c, v |-> [n \in Rng(AttrNames(c)) |-> Read(c, i, n)]]
 Partners(a, row) == SelectSeq(pool[Tgt(a)], LAMBDA t : Matches(a, row, RowOfInst(Tgt(a), t)))
 NewRow(row, g2) ==
     LET c == row.c
@@ -334,18 +334,13 @@ NoAbsent == \A c \in ClassSet : \A i \in Live(c) : \A n \in DOMAIN val[c][i] : v
 \* persisting the model and loading the text again
 SaveLoad(g2) == NoAbsent /\ LoadBuild(SavedRows, g2)
 
-(* The persistable domain of C01: every link is what the join of the written     *)
-(* values gives back, i.e. referred keys are non-null and unique among the       *)
-(* referred class, and the identifying values are themselves stored.             *)
+(* The persistable domain of C01: the links are exactly what the join of the      *)
+(* values written for the instances gives back ("referential values resolve"):  *)
+(* linked instances have non-null, matching keys and no unlinked pair matches.   *)
 Persistable ==
     /\ NoAbsent
-    /\ \A a \in AIdx :
-          /\ \A t1, t2 \in Live(Tgt(a)) :
-                (t1 # t2 /\ (fwd[a][t1] # <<>> \/ fwd[a][t2] # <<>>)) =>
-                   \E k \in DOMAIN Assocs[a].tkeys : Read(Tgt(a), t1, Assocs[a].tkeys[k]) # Read(Tgt(a), t2, Assocs[a].tkeys[k])
-          /\ \A t \in Live(Tgt(a)) : fwd[a][t] # <<>> =>
-                \A k \in DOMAIN Assocs[a].tkeys :
-                    ~IsNullTok(AttrType(Tgt(a), Assocs[a].tkeys[k]), Read(Tgt(a), t, Assocs[a].tkeys[k]))
+    /\ \A a \in AIdx : \A s \in Live(Src(a)) : \A t \in Live(Tgt(a)) :
+          InSeq(t, bwd[a][s]) <=> Matches(a, RowOfInst(Src(a), s), RowOfInst(Tgt(a), t))
 
 -----------------------------------------------------------------------------
 (* The history alphabet of C02: creation with defaults, relate / unrelate in    *)
@@ -395,7 +390,8 @@ KwSetC(c) == {f \in UNION {[S -> AllVals] : S \in SUBSET Rng(NonRef(c))} : KwOK(
 
 VNew(c, pos, kw) == "newv" \in Alpha /\ born[c] < Bound[c] /\ FirstUnknown(c) = 0 /\ PosOK(c, pos) /\ KwOK(c, kw)
                     /\ New(c, pos, kw)
-VNewD(c) == "new" \in Alpha /\ HNew(c)
+\* (persisting renumbers the instances and lets creation start over: bound the ids handed out)
+VNewD(c) == "new" \in Alpha /\ ("save" \in Alpha => gen < 2 * MaxI) /\ HNew(c)
 VNewUnknown(c) == "unknown" \in Alpha /\ born[c] < Bound[c] /\ NewUnknown(c) /\ UNCHANGED mvars
 VSetAttr(x, n, v) == "set" \in Alpha /\ x \in LiveInsts /\ n \in Rng(AttrNames(x[1]))
                      /\ v \in TypedVals(AttrType(x[1], n)) /\ SetAttr(x[1], x[2], n, v)
